@@ -21,6 +21,13 @@ def handle (line : String) : String :=
       | .ok c => "ok " ++ toHex c
       | .error e => "err " ++ e.tag
     | _, _, _, _, _, _ => "bad-op"
+  | ["encm", s, ak, kid, salt, sid, mid, seq, body, rnd] =>
+    match side? s, ofHex ak, ofHex kid, [salt, sid, mid, seq].mapM String.toNat?, ofHex body, ofHex rnd with
+    | some s, some ak, some kid, some [salt, sid, mid, seq], some body, some rnd =>
+      match encryptMessage P s ak kid salt sid mid seq body rnd with
+      | .ok c => "ok " ++ toHex c
+      | .error e => "err " ++ e.tag
+    | _, _, _, _, _, _ => "bad-op"
   | ["dec", s, ak, kid, c] =>
     match side? s, ofHex ak, ofHex kid, ofHex c with
     | some s, some ak, some kid, some c =>
